@@ -61,6 +61,19 @@ RULE = ("object histories (run, slower ramp, run again on the same object) and s
 EXPLANATION = ("Lean theorems over the reals (convexity of every cooling-stage assignment, 0D steps, liquidus "
                "algebra) + differential check of the 2D model + bounds evaluated on real recorded fields")
 PARALLEL = True
+
+# --- regeneration tie (harness/gentie.py): the formulas of the hand model SnowModel/Snowing2D.lean are re-derived
+# from /repo's source on every run and proved equal to the generated text (lean/SnowProofs/Props/GenTie/)
+import gentie  # noqa: E402
+THEOREMS = THEOREMS + gentie.theorems("2D")
+extra_lean_targets = list(globals().get("extra_lean_targets", [])) + [gentie.module("2D")]
+TRUSTED = TRUSTED + ["harness/translate.py formula extraction (single assignments of the run loop -> Lean definitions; "
+                     "anything outside its tiny language is a TranslatorError)"]
+
+
+def regenerate():
+    gentie.regenerate("2D")
+
 LEVEL_TEXT = ("PARTIAL proof. Lean 4 theorems (exact reals): the code's dt implies the CFL inequality; 0D steps (both stages) "
               "stay between T and T_shelf; every cooling-stage assignment of the 1D and of the 2D scheme is a convex "
               "combination of the values it reads (2D: for any reader, so also for the aliased in-place array; r_j >= "
